@@ -434,6 +434,13 @@ func (g *G) encapsVar(depth int) *Node {
 		switch dk {
 		case 0:
 			dim = g.leaf("ScalarLnumber", strconv.Itoa(g.R.Intn(90)))
+			if g.R.Chance(1, 4) {
+				// non-decimal offsets are string keys in PHP ("$a[0x1F]" reads key "0x1F")
+				dim = g.leaf("ScalarString", g.R.Pick("0x1F", "0b11", "0xff"))
+			} else if g.O.Common && g.R.Chance(1, 3) {
+				// leading zeros: only compared between the grammars (C10), no expectation attached
+				dim = g.leaf("ScalarLnumber", g.R.Pick("08", "09", "010", "007"))
+			}
 		case 1:
 			dim = g.leaf("ScalarString", g.ident())
 		case 2:
@@ -1118,8 +1125,20 @@ func (g *G) varExpr(depth int, call bool) *Node {
 			if !call && i == n-1 {
 				continue
 			}
-			m, _ := g.memberName()
 			as, ps := g.args(depth)
+			if g.R.Chance(1, 4) {
+				// ->{expr}(args)
+				e := g.exprTop(depth + 1)
+				base = &Node{Kind: "ExprMethodCall", Kids: []Kid{one("Var", base), one("Method", e), list("Args", as)}, Parts: parts(base, t("->"), t("{"), e, t("}"), ps), Prec: 100}
+				continue
+			}
+			if g.R.Chance(1, 8) {
+				// ->$name(args)
+				e := g.simpleVarPlain()
+				base = &Node{Kind: "ExprMethodCall", Kids: []Kid{one("Var", base), one("Method", e), list("Args", as)}, Parts: parts(base, t("->"), e, ps), Prec: 100}
+				continue
+			}
+			m, _ := g.memberName()
 			base = &Node{Kind: "ExprMethodCall", Kids: []Kid{one("Var", base), one("Method", m), list("Args", as)}, Parts: parts(base, t("->"), m, ps), Prec: 100}
 		case 3: // ->{expr}
 			e := g.exprTop(depth + 1)
